@@ -275,7 +275,7 @@ def _short(v):
 
 
 # =========================================================================== derive / mutate / observe sequences
-def _mutate(t, m, rng_seed):
+def _mutate(t, m, rng_seed, partner=None):
     """apply one public-API mutator to object t; exceptions are part of the history"""
     kind = m['m']
     cls = type(t)
@@ -315,6 +315,10 @@ def _mutate(t, m, rng_seed):
         t.set_units(Units.KM if t._units_ is not Units.KM else Units.SECONDS)
     elif kind == 'insert_deriv':
         t.insert_deriv(m.get('key', 'n'), other(5), override=True)
+    elif kind == 'insert_alias':
+        # the operand IS the other object of the pair, or one of its derivatives (explicit re-sharing by the caller)
+        opd = partner if m["what"] == "other" else partner._derivs_[m["what"]]
+        t.insert_deriv(m.get('key', 'n'), opd, override=True)
     elif kind == 'delete_deriv':
         t.delete_deriv(m.get('key', 't'), override=True)
     elif kind == 'delete_derivs':
@@ -323,6 +327,10 @@ def _mutate(t, m, rng_seed):
         d = t._derivs_[m.get('key', 't')]
         d[...] = S.mk_qube({'k': 'q', 'cls': type(d).__name__, 'shape': list(d._shape_), 'numer': list(d._numer_),
                             'denom': list(d._denom_), 'seed': rng_seed + 7})
+    elif kind == 'deriv_setitem_0':       # an in-place write of one row (indexer.py: self._values_[idx] = …)
+        d = t._derivs_[m.get('key', 't')]
+        d[0] = S.mk_qube({'k': 'q', 'cls': type(d).__name__, 'shape': list(d._shape_[1:]), 'numer': list(d._numer_),
+                          'denom': list(d._denom_), 'seed': rng_seed + 9}) * 64
     elif kind == 'deriv_imul':
         d = t._derivs_[m.get('key', 't')]
         d *= 3
@@ -416,7 +424,7 @@ def _run_seq(case):
     steps, changed = [], []
     for i, m in enumerate(case['muts']):
         try:
-            _mutate(target, m, case['src'].get('seed', 0) + i)
+            _mutate(target, m, case['src'].get('seed', 0) + i, other)
             steps.append('ok')
         except Exception as e:
             steps.append(type(e).__name__)
@@ -445,6 +453,8 @@ def oracle_seq(case):
             k, b, a = r['cchanged'][0]
             return 'seq:%s:%s' % (case['derive'], _describe(k)), 'shared constant changed: %r' % (k,)
         return None          # sharing is by design for every derivation other than copy()
+    if any(m['m'] == 'insert_alias' for m in case['muts']):
+        return None          # the caller has re-linked the two objects himself: sharing is by design (see the model tie)
     bad = list(r['changed'])
     if case['derive'] == 'copy_ro':
         # copy(readonly=True) of a read-only source may share (non-writable) storage: nothing can be written
